@@ -33,8 +33,15 @@ def run(cmd, timeout=None, env=None, cwd=None, stdout=None, check=False):
     e = dict(os.environ)
     if env:
         e.update(env)
-    p = subprocess.run(cmd, shell=isinstance(cmd, str), cwd=cwd, env=e, timeout=timeout,
-                       stdout=stdout or subprocess.PIPE, stderr=subprocess.STDOUT, text=True)
+    for attempt in range(30):
+        try:
+            p = subprocess.run(cmd, shell=isinstance(cmd, str), cwd=cwd, env=e, timeout=timeout,
+                               stdout=stdout or subprocess.PIPE, stderr=subprocess.STDOUT, text=True)
+            break
+        except (PermissionError, OSError) as ex:
+            # the driver binary is being re-linked by a concurrent build: wait and retry
+            if isinstance(ex, subprocess.TimeoutExpired) or attempt == 29: raise
+            time.sleep(5)
     if check and p.returncode != 0:
         raise ToolError('command failed (%d): %s\n%s' % (p.returncode, cmd, (p.stdout or '')[-3000:]))
     return p
